@@ -362,7 +362,11 @@ def replay_once(pid, spec, binary, scratch, path, test=None, n=1):
             return dict(result="fail", symptom="fatal:" + crash, message=r.stdout[-2000:], runs=1, failed=1)
         sys.stdout.write(r.stdout[-3000:])
         return None
-    return dict(result=m.group(2), runs=int(m.group(3)), failed=int(m.group(4)), symptom=m.group(5), message=m.group(6))
+    res = dict(result=m.group(2), runs=int(m.group(3)), failed=int(m.group(4)), symptom=m.group(5), message=m.group(6))
+    mk = re.search(r'VF-REPLAY-KNOWN known="([^"]*)" regions="([^"]*)"', r.stdout)
+    if mk:
+        res["known"], res["regions"] = mk.group(1), mk.group(2)
+    return res
 
 
 def do_replay(pid, spec, binary, scratch, args):
@@ -384,6 +388,11 @@ def do_replay(pid, spec, binary, scratch, args):
         return 2
     log("replay: %s" % res)
     if res["result"] == "fail":
+        if res.get("known"):
+            for k in load_known(pid):
+                if k["id"] == res["known"]:
+                    log("KNOWN-FINDING: property=%s %s [%s]" % (pid, k["text"], k["id"]))
+            return 0
         log("VIOLATION property=%s replay=%s" % (pid, path))
         return 1
     return 0
